@@ -50,14 +50,14 @@ CLAIMS = {
              'on that edge and ring-invariant parameters; exactly the earlier event is flagged left; collapsed edges create nothing; nothing reads ring '
              'orientation. Equality of results across representations is not decided.',
         note=TB, design='4/C07'),
-    'C08': dict(level='proof', technique='homogeneity (degree) inference over all float comparisons and coordinate constructions in MIR paths; provenance of event points',
+    'C08': dict(level='proof', technique='homogeneity (degree) inference over all float comparisons and coordinate constructions in MIR paths; provenance of event points; path-sensitive tabulation of the vertical-predecessor rows of compute_fields',
         text='Decides soundly and completely the power-of-two scaling clause: every float comparison reachable from the API relates quantities of '
              'equal degree (or 0/inf) and every constructed/stored coordinate has degree 1, hence every operation and branch commutes exactly with '
              'multiplication by 2^k (exponent-dependent predicates such as is_normal are reported). Of the translation clause only a structural necessary '
              'condition is checked (event points are input vertices, the clamped crossing point or existing event points - never re-computed overlap '
-             'ends); mirroring, transposition and quarter turns are NOT decided (the sweep is asymmetric by design).',
+             'ends). Of the mirror / transposition / quarter-turn clause one structural necessary condition is checked: the pose-dependent rows of the classification (a vertical predecessor compensates in/out in both operand branches and is never prev_in_result; is_vertical is the exact test x0 == x1) are what the geometry dictates, like the ordinary rows a transposed pose runs through; equality of the regions of two poses is NOT decided (the sweep is asymmetric by design).',
         note='Trusted: degree table of external callees (Float::min/max/abs, Into<f64>, next_after, robust::orient2d 1,1,1->2 with data-scaled error '
-             'bounds), IEEE-754 exactness of 2^k scaling absent overflow/underflow; rustc MIR; extractor and rule code. Only the scaling clause is claimed.',
+             'bounds), IEEE-754 exactness of 2^k scaling absent overflow/underflow; rustc MIR; extractor and rule code. Only the scaling clause is claimed as decided; the other clauses by the named necessary conditions.',
         design='4/C08'),
     'C09': dict(level='other', technique=TECH_PROV + '; comparison-atom table of the shortcut',
         text='Decides that each shortcut fires only under its geometric precondition: box accumulation (4 updates, operand routing), strict '
